@@ -165,3 +165,24 @@ def check_terminated_message(res, pid, summary):
     if bad:
         return [V(pid, "%s/terminated-error-wrong-exit-codes" % pid, "listed %r, true statuses %r" % (items, sorted(truth)))]
     return []
+
+
+def exec_state(run):
+    """abstract state of the executors after a scheduler step (coverage measure only)."""
+    from .. import runtime as rt
+    k = rt.RT.kernel
+    procs = k.procs
+    parts = []
+    for n, info in run.obs.executors.items():
+        if n > 1:
+            break
+        fl = info["flags"]
+        pr = info["processes"]
+        parts.append((fl.shutdown, fl.broken is not None, fl.kill_workers, min(len(info["pending"]), 3),
+                      min(len(info["running"]), 3), min(len(pr), 4),
+                      min(sum(1 for p in pr if procs[p].alive), 4), info["wref"]() is None))
+    roles = []
+    for t in procs[100].tasks:
+        if t.state != "D" and t.role in ("manager", "feeder"):
+            roles.append((t.role, t.what, t.state))
+    return hash((tuple(parts), tuple(sorted(roles)))) & 0xFFFFFFFF
